@@ -218,7 +218,12 @@ def simulated(chk, tagname, budget=1):
     hx, hy = fiducial()
     cfgs = CONFIGS[:3] if chk.tier == 'quick' else CONFIGS
     gtis = [(0., 120.), (200., 200.0004), (300., 700.)]
-    for cfg in cfgs:
+    layouts = {0: gtis}
+    for k_, cfg in enumerate(cfgs):
+        # GTI layouts: chronological with a very short interval; listed out of chronological order with a nested interval; many back-to-back
+        # intervals (an observation cut at regular marks) — the statement does not depend on how the list is arranged
+        gtis = [[(0., 120.), (200., 200.0004), (300., 700.)], [(300., 700.), (0., 120.), (320., 400.), (200., 200.0004)],
+                [(0.25 * j, 0.25 * (j + 1)) for j in range(400)] + [(300., 700.)]][k_ % 3]
         for du in ((int(g.integers(1, 4)),) if chk.tier == 'quick' else (1, 2, 3)):
             for dead in ((PARSER.get_default('deadtime'),) if chk.tier == 'quick' else (0., PARSER.get_default('deadtime'), 0.05)):
                 desc = dict(op='simulate', config=cfg, gtis=gtis, du=du, deadtime=dead, seed=int(g.integers(1, 10 ** 6)))
